@@ -66,6 +66,8 @@ def run(chk):
     chk.rule("R07.5", "recurrence coefficients are the orthonormal ones; the three-term recurrence has the stated form", 14)
     chk.rule("R07.6", "expand_coeffs writes c(l,m) and, for m != 0, c(l,-m) = (-1)^m conj c(l,m)", 4)
     chk.rule("R07.7", "quadrature plumbing: one FFT norm, fft/ifft pairing, weights rescaled to 4 pi, phi grid, ntheta >= L+1", 8)
+    chk.rule("R07.10", "point-wise evaluation is the synthesis at one point: every coefficient enters with the synthesis transfer factor times "
+                      "its Legendre value times exp(i k phi), k the Fourier index of the synthesis (real part for the real transform)", 4)
     chk.rule("R07.8", "transform results are freshly allocated: no public SHT method returns (a view of) an instance work array", 8)
     K = kernels(chk, sht, pyx, al)
     if chk.want("R07.1"):
@@ -84,6 +86,8 @@ def run(chk):
         r07_7(chk, sht)
     if chk.want("R07.8"):
         r07_8(chk, sht)
+    if chk.want("R07.10"):
+        r07_9(chk, sht, K)
     chk.assume("the nphi rounding loop (data-dependent while), Gauss-Legendre nodes/weights and floating-point exactness are not decided")
     chk.assume("loops are taken to execute at least zero times with hi >= lo (closed-form summation of running counters)")
     chk.assume("scipy fft/ifft with the same norm are mutual inverses (library contract)")
@@ -658,3 +662,149 @@ def r07_8(chk, sht):
         chk.ob("R07.8", SHT, f"SHT.{fn.name}", "the returned array is not an instance attribute (work array) or a view of one", not bad,
                node=bad[0][0].node if bad else fn, fingerprint="fresh", expected="a newly allocated result per call",
                found=f"returns self.{bad[0][1]}: {str(bad[0][0].value)[:100]}" if bad else None)
+
+
+# ------------------------------------------------------------------------------------------------ R07.9
+def _lc_atoms(term: P, name=None):
+    return [a for a in find_atoms(term, lambda a: a[0] == "lc" and (name is None or a[1] == name))]
+
+
+def r07_9(chk, sht, K):
+    """evaluate_at_points(c, theta, phi) must be  sum_k F[k](theta) exp(i k phi)  with F the Fourier row the synthesis builds
+    (transfer tuples of R07.4), real part for the half layout.  Formulas written with .real/.imag/1j are split into exact
+    (real, imaginary) polynomial pairs over cos(m phi), sin(m phi) and the parts of the accumulators (sa/cplx.py)."""
+    from ..cplx import cx, NotDecidable
+    for q, syn, real in (("SHT._eval_at_points_real", "synthesis_pure_python", True),
+                         ("SHT._eval_at_points_cplx", "synthesis_pure_python_cplx", False)):
+        ev = sht.ev(q)
+        chk.saw(SHT, q)
+        coeffs, theta, phi = [P.name(x) for x in ev.param_names[1:4]]
+        ref = transfer_tuples(K[syn], "fft", "coeffs")
+        lmax_sub = {("attr", P.name("self"), "lmax"): P.name("lmax")}
+        rl_all = [l for l in ev.all_loops if l.kind == "range"]
+        chk.need(len(rl_all) == 3, f"{q}: expected the m = 0 loop and the (m, l) nest, found {len(rl_all)} range loops")
+        # --- accumulators: assignments inside loops whose value carries the loop-carried atom of the same name
+        acc = {}
+        for e in ev.events:
+            if e.kind != "assign" or not e.loops or e.value is None:
+                continue
+            lcs = [a for a in _lc_atoms(e.value, e.name) if a[2] == e.loops[-1].k]
+            if len(lcs) != 1:
+                continue
+            acc.setdefault((e.name, e.loops[-1].k), []).append((e, e.value - P.atom(lcs[0]), lcs[0]))
+        # sign recurrence  sign = -sign  from 1, outer loop from 1  ->  value inside iteration m is (-1)^m
+        sign_map = {}
+        for (name, k), items in acc.items():
+            for e, delta, lc in items:
+                if (e.value + P.atom(lc)).is_zero() and lc[3].const_value() == 1 and e.loops[-1].lo == P.const(1):
+                    sign_map[lc] = -P.atom(("parity", e.loops[-1].index))
+        plm_root = "self.plm_work_array"
+
+        def is_cplx(a):
+            if a[0] == "sub" and a[1].key() == coeffs.key():
+                return True
+            if a[0] == "after" and any(a[1] == n for (n, _k) in inner):
+                return True
+            return False
+        inner = {}
+        outer = {}
+        m0 = {}
+        for (name, k), items in acc.items():
+            e, delta, lc = items[0]
+            if lc in sign_map or name in ("plm_idx", "sign"):
+                continue
+            depth = len([l for l in e.loops if l.kind == "range"])
+            has_c = bool(find_atoms(delta, lambda a: a[0] == "sub" and a[1].key() == coeffs.key()))
+            if depth == 2 and has_c:
+                inner[(name, k)] = (e, delta.subs(sign_map))
+            elif depth == 1 and has_c:
+                m0[(name, k)] = (e, delta)
+            elif depth == 1:
+                outer[(name, k)] = (e, delta.subs(sign_map))
+        chk.need(inner and outer and m0, f"{q}: accumulators not recognised (inner {sorted(inner)}, outer {sorted(outer)}, m=0 {sorted(m0)})")
+        try:
+            # --- inner accumulators: delta = f * c[ci] * plm[pi]
+            fam = {}
+            for (name, k), (e, delta) in inner.items():
+                cs = find_atoms(delta, lambda a: a[0] == "sub" and a[1].key() == coeffs.key())
+                ps = find_atoms(delta, lambda a: a[0] == "sub" and a[1].key() == plm_root)
+                if len(cs) != 1 or len(ps) != 1:
+                    raise NotDecidable(f"accumulator {name} is not a single product of a coefficient and a Legendre value: {delta}")
+                f = delta / (P.atom(cs[0]) * P.atom(ps[0]))
+                ci, _ = canon_lv(cs[0][2][0], e.loops)
+                f, _ = canon_lv(f, e.loops)
+                fam[name] = (ci.subs(lmax_sub).key(), f, e, k)
+            mloop = [l for l in rl_all if any(l in e.loops and len([x for x in e.loops if x.kind == "range"]) == 1 for e, _ in outer.values())][0]
+            mrole = P.atom(("role", "v1"))
+            mvar = mloop.index
+            # --- per-m contribution of the returned value
+            ret = ev.returns[-1].value
+            sub = {}
+            for (name, k), (e, delta) in outer.items():
+                sub[("after", name, k)] = delta
+            for (name, k), (e, delta) in m0.items():
+                sub[("after", name, k)] = P.const(0)
+            contrib = ret.subs(sub)
+            if _lc_atoms(contrib) or find_atoms(contrib, lambda a: a[0] == "after" and not any(a[1] == n for n in fam)):
+                raise NotDecidable(f"the returned value is not a sum over m of accumulator terms: {str(contrib)[:160]}")
+            got = cx(contrib, is_cplx)
+            # --- expected from the synthesis transfer tuples
+            exp_term = P.const(0)
+            used = set()
+            for (ci, fi, depth), T in ref.items():
+                if depth != 2:
+                    continue
+                names = [n for n, (cik, f, e, k) in fam.items() if cik == ci]
+                if len(names) != 1:
+                    raise NotDecidable(f"no accumulator reads the coefficients {ci} of the synthesis tuple")
+                n = names[0]
+                used.add(n)
+                cik, f, e, k = fam[n]
+                freq = P.atom(("role", "v1")) if fi == "(role v1)" else -P.atom(("role", "v1")) if "nphi" in fi else None
+                if freq is None:
+                    raise NotDecidable(f"Fourier index {fi} of the synthesis is neither m nor nphi - m")
+                back = {("role", "v1"): mvar}
+                A = P.atom(("after", n, k)) / f.subs(back)
+                E = P.atom(("call", P.name("exp"), (P.atom(("const", "1j")) * freq.subs(back) * phi,)))
+                exp_term = exp_term + T.subs(back) * A * E
+            want = cx(exp_term, is_cplx)
+            if real:
+                want = (want[0], P.const(0))
+            rules = {("parity", mvar): P.const(1)}
+            ok = (got[0] - want[0]).rewrite(rules).is_zero() and (got[1] - want[1]).rewrite(rules).is_zero()
+            chk.ob("R07.10", SHT, q, "for m > 0 the point value is sum over m of [synthesis factor] x accumulator x exp(i k phi)"
+                   + (" (real part)" if real else "") + ", with the Fourier index k of the synthesis", ok, node=ev.returns[-1].node,
+                   fingerprint="pointwise:" + ("real" if real else "cplx"), expected=f"re: {want[0]} ; im: {want[1]}"[:400],
+                   found=f"re: {got[0]} ; im: {got[1]}"[:400])
+            chk.ob("R07.10", SHT, q, "every synthesis family of coefficients (+m, -m) is read by exactly one accumulator", used == set(fam),
+                   fingerprint="families", found=f"{sorted(used)} of {sorted(fam)}")
+            # --- m = 0 part
+            for (name, k), (e, delta) in m0.items():
+                g = cx(delta, is_cplx)
+                ref0 = [(ci, T) for (ci, fi, depth), T in ref.items() if depth == 1]
+                if len(ref0) != 1:
+                    raise NotDecidable("m = 0 tuple of the synthesis not found")
+                ci0, T0 = ref0[0]
+                l0 = e.loops[-1].index
+                civ = P.atom(("role", "v0"))
+                cs = find_atoms(delta, lambda a: a[0] == "sub" and a[1].key() == coeffs.key())
+                ps = find_atoms(delta, lambda a: a[0] == "sub" and a[1].key() == plm_root)
+                if len(cs) != 1 or len(ps) != 1:
+                    raise NotDecidable(f"m = 0 term is not a single product: {delta}")
+                idx_ok = canon_lv(cs[0][2][0], e.loops)[0].key() == ci0 and ps[0][2][0].key() == l0.key()
+                w = cx(T0 * P.atom(cs[0]) * P.atom(ps[0]), is_cplx)
+                if real:
+                    w = (w[0], P.const(0))
+                chk.ob("R07.10", SHT, q, "the m = 0 part is sum over l of c(l,0) P(l,0)" + (" (real part)" if real else ""),
+                       idx_ok and (g[0] - w[0]).is_zero() and (g[1] - w[1]).is_zero(), node=e.node, fingerprint="pointwise-m0",
+                       expected=f"re: {w[0]} ; im: {w[1]}", found=f"re: {g[0]} ; im: {g[1]}")
+        except NotDecidable as ex:
+            raise AnalysisError(f"{SHT}:{q}: {ex}")
+    dv = sht.ev("SHT.evaluate_at_points")
+    chk.saw(SHT, "SHT.evaluate_at_points")
+    rets = {tuple((c.key(), p) for c, p in r.guards): r.value.key() for r in dv.returns}
+    cpar = dv.param_names[1]
+    okd = any(v.startswith("self._eval_at_points_real(") and any(k == f"(eq {cpar}.size self.nplm())" and p for k, p in g) for g, v in rets.items()) and \
+        any(v.startswith("self._eval_at_points_cplx(") and any(k == f"(eq {cpar}.size self.nplm())" and not p for k, p in g) for g, v in rets.items())
+    chk.ob("R07.10", SHT, "SHT.evaluate_at_points", "the half layout goes to the real evaluator, the full layout to the complex one, with the same arguments",
+           okd and all(v.endswith(f"({cpar}, {dv.param_names[2]}, {dv.param_names[3]})") for v in rets.values()), fingerprint="dispatch", found=str(rets)[:200])
